@@ -718,6 +718,8 @@ class Engine:
     def bi_len(self, n, ctx, ev):
         v = ev.ev(n.args[0], ctx)
         v = ev.unwrap_opt(v, ctx)
+        if v.ty == NONE:
+            return V(INT, fresh('junk', z3.IntSort()))      # len(None): the TypeError is already recorded (under the current guards)
         if v.ty == STR:
             return V(INT, z3.Length(v.t))
         if isinstance(v.ty, TList):
@@ -978,6 +980,16 @@ class Engine:
     def bi_isinstance(self, n, ctx, ev):
         v = ev.ev(n.args[0], ctx)
         tn = ast.unparse(n.args[1])
+        if v.ty == NONE:
+            return mk_bool(False)                      # None is an instance of none of the classes tested for
+        if isinstance(n.args[1], ast.Tuple) and v.ty in (INT, REAL, STR, BOOL):
+            names_ = [ast.unparse(e_) for e_ in n.args[1].elts]
+            prim = {'int': INT, 'float': REAL, 'str': STR, 'bool': BOOL}
+            return mk_bool(any(prim.get(x) == v.ty or (x == 'int' and v.ty == BOOL) for x in names_))
+        if tn in ('Dict', 'dict'):
+            if isinstance(v.ty, TOpt) and isinstance(v.ty.inner, TDict):
+                return V(BOOL, z3.Not(v.ty.is_none(v.t)))
+            return mk_bool(isinstance(v.ty, TDict))
         table = {'int': INT, 'float': REAL, 'str': STR, 'bool': BOOL}
         if isinstance(v.ty, TAbs):
             return mk_bool(tn == v.ty.name)
